@@ -6,9 +6,13 @@ Open Scope Z_scope.
 
 Definition wrap64 (z : Z) : Z := (z + 9223372036854775808) mod 18446744073709551616 - 9223372036854775808.
 
+(** the cap on moves-to-go (constant maxMovesToGo): without it 2 * (moves + 1) wraps to 0 for
+    moves = 2^63 - 1 and the division panics *)
+Definition max_moves_to_go : Z := 1048576.
+
 (** TimeControl.Limits: (soft, hard) for colour c (0 = White) *)
 Definition limits (white black moves c : Z) : Z * Z :=
   let remainder := if c =? 1 then black else white in
-  let mv := if 0 <? moves then wrap64 (moves + 1) else 40 in
+  let mv := if 0 <? moves then Z.min moves max_moves_to_go + 1 else 40 in
   let soft := Z.quot remainder (wrap64 (2 * mv)) in
   (soft, wrap64 (3 * soft)).
